@@ -114,6 +114,12 @@ def check(run: Run, prog: Program, model: Model, tier: str) -> None:
                 _check_recursion(kind, pv, probs)
                 if kind == "dict" and isinstance(pv.get("_entries"), Const) and pv["_entries"].value > 0:
                     seen_entry = True
+                if kind == "dict" and isinstance(pv.get("_entries"), Const):
+                    its = [e.data["iterations"] for e in p.events if e.kind == "loop" and e.func == fn.qualname
+                           and "value" in e.data["iterable"].key()]
+                    if its and pv["_entries"].value < max(its):
+                        cond = [("" if b else "not ") + k for k, _, b in p.facts if "@value" in k or "@items(value)" in k][-1:]
+                        probs.append(f"a member of the value is iterated but gets no entry (when {cond[0][:60] if cond else '?'}): members are dropped")
             else:
                 val = pv.get("value")
                 if val is None or val.key() != "value":
